@@ -18,15 +18,69 @@ let e_obdd = e_outcome e_bdd
 (* engine selection for fbin/bin/named: the reference engine (Model/Apply.v, association lists) for small
    operands, the proved-equal efficient engine (Model/ApplyFast.v, Proofs/ApplyFast.v
    fused_binary_flip_op_fast_eq) as soon as an operand has more than fast_threshold nodes, so both stay
-   exercised.  BDD_ENGINE=fast|slow forces one of them (used by the fast-vs-slow cross-check of ./check). *)
+   exercised.  BDD_ENGINE=fast|slow|stack forces one of them (used by the engine cross-check of ./check);
+   `stack` is the step-faithful explicit-stack machine of Model/ApplyStack.v (one sstep = one iteration of the
+   Rust `while` loop), proved equal to the reference engine in Proofs/ApplyStack.v (apply2_stack_eq). *)
 let fast_threshold = 300
 let rec longer_than (l : 'a list) (k : int) = match l with [] -> false | _ :: r -> k <= 0 || longer_than r (k - 1)
-let engine = match Sys.getenv_opt "BDD_ENGINE" with Some "fast" -> `Fast | Some "slow" -> `Slow | _ -> `Auto
+let engine = match Sys.getenv_opt "BDD_ENGINE" with
+  | Some "fast" -> `Fast | Some "slow" -> `Slow | Some "stack" -> `Stack | _ -> `Auto
 let fbf (x : bdd) (y : bdd) fa fb fo op : bdd outcome =
-  let fast = match engine with
-    | `Fast -> true | `Slow -> false
-    | `Auto -> longer_than x fast_threshold || longer_than y fast_threshold in
-  if fast then fused_binary_flip_op_fast x y fa fb fo op else fused_binary_flip_op x y fa fb fo op
+  match engine with
+  | `Stack -> fused_binary_flip_op_stack x y fa fb fo op
+  | `Fast -> fused_binary_flip_op_fast x y fa fb fo op
+  | `Slow -> fused_binary_flip_op x y fa fb fo op
+  | `Auto ->
+    if longer_than x fast_threshold || longer_than y fast_threshold
+    then fused_binary_flip_op_fast x y fa fb fo op else fused_binary_flip_op x y fa fb fo op
+(* restrict / var_restrict: the order-faithful single-pass algorithm (Model/Restrict.v) is the model that is
+   reported; the compositional model (Ops.restrict, exists-of-select) is computed as well.  On a well-formed
+   operand (in particular on every canonical one) the two are proved equal (Proofs/Restrict.v
+   restriction_eq_model_wf), so a difference there is a machinery error, never a finding. *)
+let restrict_both (b : bdd) (lits : (n * bool) list) : bdd outcome =
+  let faithful = restrict_faithful b lits in
+  (match faithful, restrict b lits with
+   | Some r, Ok r' when r <> r' && wfb b -> raise (Bad "restrict models disagree")
+   | None, Ok _ when wfb b -> raise (Bad "restrict models disagree")
+   | _ -> ());
+  match faithful with Some r -> Ok r | None -> OutOfFuel
+
+(* ternary operators: the reported result is the one of the ORDER-FAITHFUL engine (Model/Apply3.v, the model of the
+   library's own `ternary_apply` loop); the compositional I/O-equivalent model (Model/Ops.v, five binary applies) is
+   recomputed alongside.  Proofs/Apply3Sem.v `ternary_faithful_eq` proves the two outcomes equal whenever the operands
+   are well-formed and the table is total and consistent (`table3_okb`, proved sound: `table3_okb_sound`; the Python
+   generator `partial_table3` only produces such tables).  Under exactly these hypotheses a difference can only be a
+   model/extraction/driver bug and is a hard error; otherwise (malformed operand recorded from a defective
+   implementation, inconsistent table) the theorem does not apply and the faithful engine's result goes to the judge. *)
+let tern3 (x : bdd) (y : bdd) (z : bdd) fa fb fc fo (op : op3) : bdd outcome =
+  let f = fused_ternary_flip_op_faithful x y z fa fb fc fo op in
+  let c = fused_ternary_flip_op x y z fa fb fc fo op in
+  if f <> c && table3_okb op && wfb x && wfb y && wfb z then raise (Bad "ternary-models-disagree");
+  f
+
+(* nested apply: the model answer is the result of the FAITHFUL engine (Model/Nested.v: outer engine, inner
+   engine on the growing store, fix_alignment).  The compositional model (operate, then project the triggered
+   variables one at a time; Model/Ops.v) is computed as well: on valid operands with a total consistent outer
+   table and an or/and inner table both are canonical diagrams of the same function
+   (Proofs/NestedSem.v, Proofs/QuantSem.v), so a difference is a hard machinery error. *)
+let table_ok (op : op2) : bool =
+  let tt a b = op (Some a) (Some b) in
+  let bools = [false; true] in
+  let o = [None; Some false; Some true] in
+  let refines a x = match x with None -> true | Some b -> a = b in
+  List.for_all (fun a -> List.for_all (fun b -> tt a b <> None) bools) bools &&
+  List.for_all (fun l -> List.for_all (fun r ->
+      match op l r with None -> true | Some c ->
+        List.for_all (fun a -> List.for_all (fun b ->
+          not (refines a l && refines b r) || tt a b = Some c) bools) bools) o) o
+let or_and_like (inner : op2) : bool =
+  let total_is f = List.for_all (fun (a, b) -> inner (Some a) (Some b) = Some (f a b))
+      [(false,false);(false,true);(true,false);(true,true)] in
+  table_ok inner && (total_is (||) || total_is (&&))
+let both_nested (operands : bdd list) (outer : op2) (faithful : bdd outcome) (compositional : bdd outcome) : bdd outcome =
+  if faithful <> compositional && List.for_all wfb operands && table_ok outer then raise (Bad "nested models disagree");
+  faithful
+
 let run (c : s list) : s option =
   Some (match c with
   | A "fbin" :: t :: fa :: fb :: fo :: x :: y :: _ ->
@@ -56,24 +110,35 @@ let run (c : s list) : s option =
     A ("t:" ^ String.concat "" (List.concat_map (fun l -> List.map (fun r ->
         match op l r with None -> "-" | Some false -> "0" | Some true -> "1") o) o))
   | A "not" :: x :: _ -> e_bdd (bdd_not (d_bdd x))
-  | A "ite" :: x :: y :: z :: _ -> e_obdd (if_then_else (d_bdd x) (d_bdd y) (d_bdd z))
-  | A "tern" :: t :: x :: y :: z :: _ -> e_obdd (ternary_op (d_bdd x) (d_bdd y) (d_bdd z) (op3_of_table (d_table t)))
+  | A "ite" :: x :: y :: z :: _ -> e_obdd (tern3 (d_bdd x) (d_bdd y) (d_bdd z) None None None None ite_function)
+  | A "tern" :: t :: x :: y :: z :: _ -> e_obdd (tern3 (d_bdd x) (d_bdd y) (d_bdd z) None None None None (op3_of_table (d_table t)))
   | A "ftern" :: t :: f1 :: f2 :: f3 :: fo :: x :: y :: z :: _ ->
-    e_obdd (fused_ternary_flip_op (d_bdd x) (d_bdd y) (d_bdd z) (d_optvar f1) (d_optvar f2) (d_optvar f3) (d_optvar fo) (op3_of_table (d_table t)))
+    e_obdd (tern3 (d_bdd x) (d_bdd y) (d_bdd z) (d_optvar f1) (d_optvar f2) (d_optvar f3) (d_optvar fo) (op3_of_table (d_table t)))
   | A "var_exists" :: x :: v :: _ -> e_obdd (var_exists (d_bdd x) (d_n v))
   | A "var_for_all" :: x :: v :: _ -> e_obdd (var_for_all (d_bdd x) (d_n v))
-  | A "exists" :: x :: vs :: _ -> e_obdd (bdd_exists (d_bdd x) (d_list d_n vs))
-  | A "for_all" :: x :: vs :: _ -> e_obdd (bdd_for_all (d_bdd x) (d_list d_n vs))
-  | A "bin_exists" :: t :: x :: y :: vs :: _ -> e_obdd (binary_op_with_exists (d_bdd x) (d_bdd y) (op2_of t) (d_list d_n vs))
-  | A "bin_for_all" :: t :: x :: y :: vs :: _ -> e_obdd (binary_op_with_for_all (d_bdd x) (d_bdd y) (op2_of t) (d_list d_n vs))
+  | A "exists" :: x :: vs :: _ ->
+    let b = d_bdd x and l = d_list d_n vs in
+    e_obdd (both_nested [b] op_and (bdd_exists_faithful b l) (bdd_exists b l))
+  | A "for_all" :: x :: vs :: _ ->
+    let b = d_bdd x and l = d_list d_n vs in
+    e_obdd (both_nested [b] op_and (bdd_for_all_faithful b l) (bdd_for_all b l))
+  | A "bin_exists" :: t :: x :: y :: vs :: _ ->
+    let a = d_bdd x and b = d_bdd y and l = d_list d_n vs and op = op2_of t in
+    e_obdd (both_nested [a; b] op (binary_op_with_exists_faithful a b op l) (binary_op_with_exists a b op l))
+  | A "bin_for_all" :: t :: x :: y :: vs :: _ ->
+    let a = d_bdd x and b = d_bdd y and l = d_list d_n vs and op = op2_of t in
+    e_obdd (both_nested [a; b] op (binary_op_with_for_all_faithful a b op l) (binary_op_with_for_all a b op l))
   | A "nested" :: tout :: tin :: x :: y :: trig :: _ ->
     let inner = op2_of tin in
     let is_and = (inner (Some false) (Some true) = Some false) in
-    e_obdd (binary_op_nested (d_bdd x) (d_bdd y) (d_bits 'v' trig) (op2_of tout) is_and)
+    let a = d_bdd x and b = d_bdd y and tr = d_bits 'v' trig and out = op2_of tout in
+    let faithful = nested_apply_faithful a b tr out inner in
+    if or_and_like inner then e_obdd (both_nested [a; b] out faithful (binary_op_nested a b tr out is_and))
+    else e_obdd faithful
   | A "var_select" :: x :: v :: c :: _ -> e_obdd (var_select (d_bdd x) (d_n v) (d_bool c))
   | A "select" :: x :: lits :: _ -> e_obdd (select (d_bdd x) (d_list (d_pair d_n d_bool) lits))
-  | A "var_restrict" :: x :: v :: c :: _ -> e_obdd (var_restrict (d_bdd x) (d_n v) (d_bool c))
-  | A "restrict" :: x :: lits :: _ -> e_obdd (restrict (d_bdd x) (d_list (d_pair d_n d_bool) lits))
+  | A "var_restrict" :: x :: v :: c :: _ -> e_obdd (restrict_both (d_bdd x) [(d_n v, d_bool c)])
+  | A "restrict" :: x :: lits :: _ -> e_obdd (restrict_both (d_bdd x) (d_list (d_pair d_n d_bool) lits))
   | A "var_pick" :: x :: v :: _ -> e_obdd (var_pick (d_bdd x) (d_n v))
   | A "var_pick_random" :: x :: v :: sc :: _ -> e_obdd (fst (var_pick_random (d_bdd x) (d_n v) (d_bits 'v' sc)))
   | A "pick" :: x :: vs :: _ -> e_obdd (pick (d_bdd x) (d_list d_n vs))
